@@ -286,6 +286,21 @@ theorem Inv.ensure {fs : List Force} {st : St} (h : Inv fs st) (i : Nat) (hs : 5
   · intro hno; rw [b.cv]; exact h.nopos hno
   · intro h7; rw [b.tot, b.vars]; exact h.tot (by rw [← b.stage]; exact h7)
 
+/-- the variables after a Force::Gravity setter -/
+def gravVars (v : Vars) (i j x : Nat) (zero : Bool) : Vars :=
+  { v with params := setParamVal v.params i j x, zeroMag := setAt v.zeroMag i zero }
+
+theorem step_gravSet_eq (fs : List Force) (st : St) (i j v : Nat) (zero : Bool)
+    (hgr : (fs.getD i default).gravity = true) :
+    C16.step fs st (.gravSet i j v zero) =
+      { st with stage := min st.stage 6, lazyFresh := setAt st.lazyFresh i false,
+                vars := gravVars st.vars i j v zero,
+                lazySnap := if zero = true then setAt st.lazySnap i (inputs fs (gravVars st.vars i j v zero) i)
+                            else st.lazySnap } := by
+  simp only [C16.step, if_pos hgr, St.inval, gravVars]
+  have : ¬ (7 ≤ 5 ∧ 5 ≤ st.stage) := by omega
+  simp only [if_neg this]
+
 theorem Inv.step {fs : List Force} (hw : WF fs) {st : St} (h : Inv fs st) (op : Op) : Inv fs (C16.step fs st op) := by
   cases op with
   | setT v => exact h.change hw 4 (by omega) _ (fun _ _ => ⟨rfl, rfl⟩) (fun h6 => absurd h6 (by omega))
@@ -339,40 +354,51 @@ theorem Inv.step {fs : List Force} (hw : WF fs) {st : St} (h : Inv fs st) (op : 
         omega
     · exact h3
   | gravSet i j v zero =>
-    simp only [C16.step]
     by_cases hgr : (fs.getD i default).gravity = true
-    · rw [if_pos hgr]
+    · rw [step_gravSet_eq fs st i j v zero hgr]
       have hi := gravity_lt hgr
-      -- abbreviations
-      have hst6 : ∀ x, x = min st.stage (7 - 1) → x ≤ 6 := fun x hx => by omega
+      generalize hv' : gravVars st.vars i j v zero = v'
+      have hvp : ∀ k, k ≠ i → v'.params.getD k [] = st.vars.params.getD k [] := by
+        intro k hk; rw [← hv']; exact getD_setParamVal_ne _ _ _ _ _ hk
+      have hvz : ∀ k, k ≠ i → v'.zeroMag.getD k false = st.vars.zeroMag.getD k false := by
+        intro k hk; rw [← hv']; exact getD_setAt_ne _ _ _ _ _ hk
+      have hvt : v'.t = st.vars.t ∧ v'.q = st.vars.q ∧ v'.enabled = st.vars.enabled := by
+        rw [← hv']; exact ⟨rfl, rfl, rfl⟩
+      have hvzi : v'.zeroMag.getD i false = true → zero = true := by
+        rw [← hv']
+        intro hx
+        have hx' : (setAt st.vars.zeroMag i zero).getD i false = true := hx
+        rw [getD_setAt] at hx'
+        by_cases hc : i = i ∧ i < st.vars.zeroMag.length
+        · rwa [if_pos hc] at hx'
+        · rw [if_neg hc] at hx'
+          have hlen : ¬ i < st.vars.zeroMag.length := fun hl => hc ⟨rfl, hl⟩
+          have : st.vars.zeroMag.getD i false = false := by
+            simp [List.getD_eq_getElem?_getD, List.getElem?_eq_none (Nat.le_of_not_lt hlen)]
+          rw [this] at hx'; cases hx'
+      have hsn : ∀ k, k ≠ i → (if zero = true then setAt st.lazySnap i (inputs fs v' i) else st.lazySnap).getD k []
+          = st.lazySnap.getD k [] := by
+        intro k hk; split
+        · exact getD_setAt_ne _ _ _ _ _ hk
+        · rfl
       refine ⟨⟨?_, ?_, ?_, ?_, ?_⟩, ?_, h.nopos, ?_⟩
-      · show (if 7 ≤ 5 ∧ 5 ≤ st.stage then _ else setAt st.lazyFresh i false).length = fs.length
-        rw [if_neg (by omega)]; simp [h.l.lenF]
-      · show (if zero = true then setAt st.lazySnap i _ else st.lazySnap).length = fs.length
+      · show (setAt st.lazyFresh i false).length = fs.length
+        simp [h.l.lenF]
+      · show (if zero = true then setAt st.lazySnap i (inputs fs v' i) else st.lazySnap).length = fs.length
         split <;> simp [h.l.lenS]
       · intro k hk hf
-        have hf' : (setAt st.lazyFresh i false).getD k false = true := by
-          have : (if 7 ≤ 5 ∧ 5 ≤ st.stage then (setAt st.lazyFresh i false).map (fun _ => false)
-                  else setAt st.lazyFresh i false).getD k false = true := hf
-          rwa [if_neg (by omega)] at this
+        have hf' : (setAt st.lazyFresh i false).getD k false = true := hf
         have hki : k ≠ i := by
           intro hki; subst hki
           rw [getD_setAt_self _ _ _ _ (by rw [h.l.lenF]; exact hi)] at hf'; cases hf'
         rw [getD_setAt_ne _ _ _ _ _ hki] at hf'
-        have hsn : (if zero = true then setAt st.lazySnap i
-              (inputs fs { st.vars with params := setParamVal st.vars.params i j v, zeroMag := setAt st.vars.zeroMag i zero } i)
-              else st.lazySnap).getD k [] = st.lazySnap.getD k [] := by
-          split
-          · exact getD_setAt_ne _ _ _ _ _ hki
-          · rfl
-        show (if zero = true then _ else st.lazySnap).getD k [] = _
-        rw [hsn, h.l.lazy k hk hf']
-        exact (inputs_congr fs st.vars _ k (getD_setParamVal_ne _ _ _ _ _ hki)
-          (fun _ => getD_setAt_ne _ _ _ _ _ hki) rfl rfl (fun hx => by rw [hk] at hx; cases hx)).symm
+        show (if zero = true then setAt st.lazySnap i (inputs fs v' i) else st.lazySnap).getD k [] = inputs fs v' k
+        rw [hsn k hki, h.l.lazy k hk hf']
+        exact (inputs_congr fs st.vars v' k (hvp k hki) (fun _ => hvz k hki) hvt.1 hvt.2.1
+          (fun hx => by rw [hk] at hx; cases hx)).symm
       · intro hlt k
-        have hlt' : min st.stage (7 - 1) < 5 := hlt
-        show (if 7 ≤ 5 ∧ 5 ≤ st.stage then _ else setAt st.lazyFresh i false).getD k false = false
-        rw [if_neg (by omega)]
+        have hlt' : min st.stage 6 < 5 := hlt
+        show (setAt st.lazyFresh i false).getD k false = false
         by_cases hki : k = i
         · subst hki
           rw [getD_setAt]; split
@@ -380,49 +406,30 @@ theorem Inv.step {fs : List Force} (hw : WF fs) {st : St} (h : Inv fs st) (op : 
           · exact h.l.low (by omega) k
         · rw [getD_setAt_ne _ _ _ _ _ hki]; exact h.l.low (by omega) k
       · intro k hk hzm
-        show (if zero = true then _ else st.lazySnap).getD k [] = _
+        have hzm' : v'.zeroMag.getD k false = true := hzm
+        show (if zero = true then setAt st.lazySnap i (inputs fs v' i) else st.lazySnap).getD k [] = inputs fs v' k
         by_cases hki : k = i
         · subst hki
-          have hz : zero = true := by
-            have : (setAt st.vars.zeroMag k zero).getD k false = true := hzm
-            rw [getD_setAt] at this
-            split at this
-            · exact this
-            · rename_i hn
-              -- beyond the list: the flag cannot be read as true
-              have hlen : ¬ k < st.vars.zeroMag.length := fun hx => hn ⟨rfl, hx⟩
-              have : st.vars.zeroMag.getD k false = false := by
-                simp [List.getD_eq_getElem?_getD, List.getElem?_eq_none (Nat.le_of_not_lt hlen)]
-              rw [this] at *; contradiction
-          rw [if_pos hz]
+          rw [if_pos (hvzi hzm')]
           exact getD_setAt_self _ _ _ _ (by rw [h.l.lenS]; exact hi)
-        · have hzm' : st.vars.zeroMag.getD k false = true := by
-            have : (setAt st.vars.zeroMag i zero).getD k false = true := hzm
-            rwa [getD_setAt_ne _ _ _ _ _ hki] at this
-          have hsn : (if zero = true then setAt st.lazySnap i
-                (inputs fs { st.vars with params := setParamVal st.vars.params i j v, zeroMag := setAt st.vars.zeroMag i zero } i)
-                else st.lazySnap).getD k [] = st.lazySnap.getD k [] := by
-            split
-            · exact getD_setAt_ne _ _ _ _ _ hki
-            · rfl
-          rw [hsn, h.l.zero k hk hzm']
-          exact (inputs_zero fs st.vars _ k hk (getD_setParamVal_ne _ _ _ _ _ hki) hzm hzm').symm
+        · have hz0 : st.vars.zeroMag.getD k false = true := by rw [← hvz k hki]; exact hzm'
+          rw [hsn k hki, h.l.zero k hk hz0]
+          exact (inputs_zero fs st.vars v' k hk (hvp k hki) hzm' hz0).symm
       · intro hv h5
-        have h5' : 5 ≤ min st.stage (7 - 1) := h5
-        show st.cacheTotal = posContribs fs _
+        have h5' : 5 ≤ min st.stage 6 := h5
+        show st.cacheTotal = posContribs fs v'
         rw [h.cache hv (by omega)]
-        refine (posContribs_congr fs hw st.vars _ rfl rfl rfl ?_).symm
+        refine (posContribs_congr fs hw st.vars v' hvt.2.2 hvt.1 hvt.2.1 ?_).symm
         intro k hk
         have hki : k ≠ i := by
           intro hki; subst hki
-          have hlt : k < fs.length := hi
-          have := hw.grav _ (getD_mem hlt) hgr
+          have := hw.grav _ (getD_mem hi) hgr
           rw [this] at hk; cases hk
-        exact getD_setParamVal_ne _ _ _ _ _ hki
+        exact hvp k hki
       · intro h7
-        have : 7 ≤ min st.stage (7 - 1) := h7
+        have : 7 ≤ min st.stage 6 := h7
         omega
-    · rw [if_neg hgr]; exact h
+    · simp only [C16.step, if_neg hgr]; exact h
   | realize g => exact (realize_spec fs st g h).1
   | gravQuery i =>
     simp only [C16.step]
@@ -449,5 +456,89 @@ theorem Inv.step {fs : List Force} (hw : WF fs) {st : St} (h : Inv fs st) (op : 
       simp only [Bool.and_eq_true] at this
       exact this.2
     · exact h
+
+
+/-! ## history independence -/
+
+theorem Inv.fresh (fs : List Force) (v : Vars) : Inv fs (fresh fs v) := by
+  refine ⟨⟨by simp [C16.fresh], by simp [C16.fresh], ?_, ?_, ?_⟩, ?_, fun _ => rfl, ?_⟩
+  · intro i _ hf
+    have : ((fs.map (fun _ => false)).getD i false) = false := by
+      simp only [List.getD_eq_getElem?_getD, List.getElem?_map]
+      cases fs[i]? <;> rfl
+    simp only [C16.fresh] at hf
+    rw [this] at hf; cases hf
+  · intro _ i
+    simp only [C16.fresh, List.getD_eq_getElem?_getD, List.getElem?_map]
+    cases fs[i]? <;> rfl
+  · intro i hg hz
+    have hi := gravity_lt hg
+    simp only [C16.fresh, List.getD_eq_getElem?_getD, List.getElem?_map, List.getElem?_range hi, Option.map_some,
+      Option.getD_some]
+    simp only [List.getD_eq_getElem?_getD] at hz
+    rw [if_pos hz]
+  · intro hv; cases hv
+  · intro h7; simp only [C16.fresh] at h7; omega
+
+theorem Inv.run {fs : List Force} (hw : WF fs) (ops : List Op) {st : St} (h : Inv fs st) : Inv fs (run fs st ops) := by
+  induction ops generalizing st with
+  | nil => exact h
+  | cons op ops ih => simp only [run, List.foldl_cons]; exact ih (h.step hw op)
+
+theorem fresh_vars (fs : List Force) (v : Vars) : (fresh fs v).vars = v := rfl
+
+/-- **history_independent.**  For a system whose force elements respect the table obligation (`WF`, which
+`wf_of_table` derives from `TableOK`), after *any* sequence of variable modifications (time, q, u, z, force
+parameters, enable flags, gravity setters), realizations to arbitrary stages and intermediate queries, the force
+totals delivered by a realization to Dynamics are the same as in a freshly created State given the same values. -/
+theorem history_independent (fs : List Force) (hw : WF fs) (v0 : Vars) (ops : List Op) :
+    result fs (run fs (fresh fs v0) ops) = result fs (fresh fs (run fs (fresh fs v0) ops).vars) := by
+  rw [result_eq_canonical fs _ ((Inv.fresh fs v0).run hw ops),
+      result_eq_canonical fs _ (Inv.fresh fs _), fresh_vars]
+
+/-- the same starting from any state satisfying the invariant (e.g. in the middle of a simulation) -/
+theorem history_independent_from (fs : List Force) (hw : WF fs) (st : St) (h : Inv fs st) (ops : List Op) :
+    result fs (run fs st ops) = result fs (fresh fs (run fs st ops).vars) := by
+  rw [result_eq_canonical fs _ (h.run hw ops), result_eq_canonical fs _ (Inv.fresh fs _), fresh_vars]
+
+/-- …instantiated with the table regenerated from the source: any system built from the library's force classes
+(each row, `Force::Custom` with either answer as long as it has no late parameter) -/
+theorem history_independent_table (cs : List (FClass × Bool)) (hm : ∀ c ∈ cs, c.1 ∈ Gen.table)
+    (v0 : Vars) (ops : List Op) :
+    let fs := cs.map (fun c => Force.ofClass c.1 c.2)
+    result fs (run fs (fresh fs v0) ops) = result fs (fresh fs (run fs (fresh fs v0) ops).vars) := by
+  intro fs
+  refine history_independent fs (wf_of_table Gen.table table_ok cs hm ?_ ?_) v0 ops
+  · intro c hc hp
+    have : ∀ r ∈ Gen.table, r.posOnly = none → r.paramStages = [] := by decide
+    exact this c.1 (hm c hc) hp
+  · intro c hc hn
+    have : ∀ r ∈ Gen.table, r.name = "Force::GravityImpl" → r.posOnly = some false := by decide
+    exact this c.1 (hm c hc) hn
+
+/-- **gravity_cache_invalidated_by_setters.**  After a Force::Gravity setter the element's lazy force cache is not
+marked valid (so the next use recomputes it from the new parameters), whatever the stage. -/
+theorem gravity_cache_invalidated_by_setters (fs : List Force) (st : St) (i j v : Nat) (zero : Bool)
+    (hg : (fs.getD i default).gravity = true) (hl : st.lazyFresh.length = fs.length) :
+    (step fs st (.gravSet i j v zero)).lazyFresh.getD i false = false := by
+  rw [step_gravSet_eq fs st i j v zero hg]
+  exact getD_setAt_self _ _ _ _ (by rw [hl]; exact gravity_lt hg)
+
+/-- **the hypothesis is needed** (the mechanism of finding F4): with a position-only element whose parameter
+invalidates only Dynamics, changing the parameter after a realization gives totals that differ from a fresh
+State's. -/
+theorem history_dependent_without_TableOK :
+    let fs : List Force := [{ posOnly := true, paramStages := [7] }]
+    let v0 : Vars := { params := [[5]], enabled := [true], zeroMag := [false] }
+    let ops : List Op := [.realize 8, .setParam 0 0 50, .realize 8]
+    result fs (run fs (fresh fs v0) ops) ≠ result fs (fresh fs (run fs (fresh fs v0) ops).vars) := by
+  decide
+
+/-- non-vacuity of `history_independent`: a mixed system (position-only spring with an Instance-stage parameter,
+damper with a Dynamics-stage parameter, gravity) is well formed -/
+example : WF [{ posOnly := true, paramStages := [3] }, { posOnly := false, paramStages := [7] },
+              { posOnly := false, gravity := true, paramStages := [7] }] := by
+  refine ⟨?_, ?_, ?_⟩ <;> intro f hf <;> simp only [List.mem_cons, List.not_mem_nil, or_false] at hf <;>
+    rcases hf with rfl | rfl | rfl <;> simp
 
 end C16
